@@ -69,6 +69,7 @@ type Fragment struct {
 	ExcludedKnown map[string]int64 `json:"excluded_known"`
 	Violations    []Violation      `json:"violations"`
 	Extra         map[string]any   `json:"extra"`
+	ExtraSum      map[string]int64 `json:"extra_sum"`
 	Tests         map[string]int64 `json:"tests"`
 	Completed     bool             `json:"completed"`
 	ExitCode      int              `json:"exit_code"`
@@ -94,6 +95,7 @@ var R = &recorder{
 		Labels:        map[string]int64{},
 		ExcludedKnown: map[string]int64{},
 		Extra:         map[string]any{},
+		ExtraSum:      map[string]int64{},
 		Tests:         map[string]int64{},
 	},
 }
@@ -259,8 +261,7 @@ func Extra(k string, v any) {
 
 func ExtraAdd(k string, n int64) {
 	R.mu.Lock()
-	old, _ := R.frag.Extra[k].(int64)
-	R.frag.Extra[k] = old + n
+	R.frag.ExtraSum[k] += n
 	R.mu.Unlock()
 }
 
